@@ -104,6 +104,9 @@ pub struct Cond {
     pub kind: Kind,
     /// raw atom, hex
     pub arg: String,
+    /// number of extra trailing arguments (ignored unless STRICT_ARGS_COUNT is set, then invalid)
+    #[serde(default)]
+    pub extra_args: u8,
 }
 
 #[derive(Serialize, Deserialize, Clone, Debug, PartialEq)]
@@ -115,6 +118,11 @@ pub struct Spend {
     pub amount: u64,
     pub conds: Vec<Cond>,
     pub remarks: u8,
+    /// other conditions interleaved with the locks: (position among the lock conditions, kind)
+    /// kind 0 REMARK, 1 CREATE_COIN_ANNOUNCEMENT, 2 AGG_SIG_UNSAFE, 3 ASSERT_MY_AMOUNT (true),
+    /// 4 ASSERT_EPHEMERAL, 5 RESERVE_FEE 0
+    #[serde(default)]
+    pub fillers: Vec<(u8, u8)>,
 }
 
 #[derive(Serialize, Deserialize, Clone, Debug, PartialEq)]
@@ -244,6 +252,18 @@ impl Reference {
                 if ephemeral[i] && sp.conds.iter().any(|c| c.kind.is_relative_or_birth()) {
                     static_reject = Some("relative_on_ephemeral");
                     break;
+                }
+            }
+        }
+        // not lock rules, but they decide whether the bundle parses at all
+        if static_reject.is_none() {
+            let strict = case.flagset == 2 || case.flagset == 3;
+            for (i, sp) in case.spends.iter().enumerate() {
+                if strict && sp.conds.iter().any(|c| c.extra_args > 0) {
+                    static_reject = Some("extra_arguments_in_strict_mode");
+                }
+                if !ephemeral[i] && sp.fillers.iter().any(|f| f.1 == 4) {
+                    static_reject = Some("assert_ephemeral_on_confirmed_coin");
                 }
             }
         }
@@ -476,10 +496,62 @@ fn build_tree(a: &mut Allocator, case: &Case, b: &Built) -> NodePtr {
                 conds.push(list(a, &[op, ph, am]));
             }
         }
-        for c in &sp.conds {
+        let filler = |a: &mut Allocator, kind: u8| -> NodePtr {
+            match kind {
+                1 => {
+                    let op = a.new_atom(&[60]).unwrap();
+                    let m = a.new_atom(b"announce").unwrap();
+                    list(a, &[op, m])
+                }
+                2 => {
+                    // the G1 generator as key; signatures are not validated in this engine
+                    let g1: [u8; 48] = [
+                        0x97, 0xf1, 0xd3, 0xa7, 0x31, 0x97, 0xd7, 0x94, 0x26, 0x95, 0x63, 0x8c, 0x4f, 0xa9, 0xac, 0x0f, 0xc3, 0x68, 0x8c, 0x4f, 0x97, 0x74, 0xb9,
+                        0x05, 0xa1, 0x4e, 0x3a, 0x3f, 0x17, 0x1b, 0xac, 0x58, 0x6c, 0x55, 0xe8, 0x3f, 0xf9, 0x7a, 0x1a, 0xef, 0xfb, 0x3a, 0xf0, 0x0a, 0xdb, 0x22,
+                        0xc6, 0xbb,
+                    ];
+                    let op = a.new_atom(&[49]).unwrap();
+                    let k = a.new_atom(&g1).unwrap();
+                    let m = a.new_atom(b"x").unwrap();
+                    list(a, &[op, k, m])
+                }
+                3 => {
+                    let op = a.new_atom(&[73]).unwrap();
+                    let am = a.new_atom(&int_atom(sp.amount)).unwrap();
+                    list(a, &[op, am])
+                }
+                4 => {
+                    let op = a.new_atom(&[76]).unwrap();
+                    list(a, &[op])
+                }
+                5 => {
+                    let op = a.new_atom(&[52]).unwrap();
+                    let z = a.nil();
+                    list(a, &[op, z])
+                }
+                _ => {
+                    let op = a.new_atom(&[1]).unwrap();
+                    let m = a.new_atom(b"remark").unwrap();
+                    list(a, &[op, m])
+                }
+            }
+        };
+        for (j, c) in sp.conds.iter().enumerate() {
+            for f in sp.fillers.iter().filter(|f| f.0 as usize == j) {
+                let n = filler(a, f.1);
+                conds.push(n);
+            }
             let op = a.new_atom(&[c.kind.opcode()]).unwrap();
             let arg = a.new_atom(&parse_hex(&c.arg)).unwrap();
-            conds.push(list(a, &[op, arg]));
+            let mut items = vec![op, arg];
+            for e in 0..c.extra_args {
+                items.push(a.new_atom(&[0x40 + e]).unwrap());
+            }
+            conds.push(list(a, &items));
+        }
+        for f in sp.fillers.iter().filter(|f| f.0 as usize >= sp.conds.len()) {
+            let n = filler(a, f.1);
+            conds.push(n);
         }
         let cl = list(a, &conds);
         let p = a.new_atom(&b.parents[i]).unwrap();
@@ -817,7 +889,7 @@ impl Engine for C03 {
     fn generate(&self, rng: &mut Rng, tier: Tier) -> Case {
         let deep = tier == Tier::Thorough && rng.chance(1, 5);
         let nspends = if deep { rng.range(3, 5) } else { 0 };
-        let nspends = if nspends > 0 { nspends as usize } else { match rng.below(10) {
+        let nspends = if nspends > 0 { nspends as usize } else if rng.chance(1, 150) { rng.range(6, 20) as usize } else { match rng.below(10) {
             0..=4 => 1,
             5..=7 => 2,
             _ => 3,
@@ -836,12 +908,13 @@ impl Engine for C03 {
             } else {
                 None
             };
-            let nconds = match rng.below(8) {
-                0 => 0,
-                1..=3 => 1,
-                4..=5 => 2,
-                6 => 3,
-                _ => 4,
+            let nconds = match rng.below(80) {
+                0..=9 => 0,
+                10..=39 => 1,
+                40..=59 => 2,
+                60..=69 => 3,
+                70..=78 => 4,
+                _ => rng.range(5, 12) as usize,
             };
             let mut conds = vec![];
             for _ in 0..nconds {
@@ -854,15 +927,33 @@ impl Engine for C03 {
                 if let Cls::Val(v) = classify(&arg, kind.width()) {
                     anchors.push(v);
                 }
-                conds.push(Cond { kind, arg: hex::encode(arg) });
+                conds.push(Cond { kind, arg: hex::encode(arg), extra_args: if rng.chance(1, 12) { 1 + rng.below(2) as u8 } else { 0 } });
             }
             spends.push(Spend {
                 parent_spend,
                 parent_seed: rng.below(1 << 20),
                 puzzle_seed: rng.below(1 << 20),
                 amount: if parent_spend.is_some() { 1 + rng.below(5) } else { 1000 + rng.below(1000) },
-                conds,
                 remarks: rng.below(2) as u8,
+                fillers: {
+                    let nf = match rng.below(6) {
+                        0..=2 => 0,
+                        3 | 4 => 1,
+                        _ => rng.range(2, 4),
+                    };
+                    (0..nf)
+                        .map(|_| {
+                            let pos = rng.below(conds.len() as u64 + 1) as u8;
+                            let mut kind = rng.below(6) as u8;
+                            // ASSERT_EPHEMERAL mostly where it is true
+                            if kind == 4 && parent_spend.is_none() && rng.chance(9, 10) {
+                                kind = 0;
+                            }
+                            (pos, kind)
+                        })
+                        .collect()
+                },
+                conds,
             });
         }
         // break parent cycles (a -> b -> a): keep links only towards a spend that is not itself linked back
@@ -1056,6 +1147,18 @@ impl Engine for C03 {
                 let mut c = case.clone();
                 c.spends[i].conds.remove(j);
                 out.push(c);
+            }
+            if !case.spends[i].fillers.is_empty() {
+                let mut c = case.clone();
+                c.spends[i].fillers.clear();
+                out.push(c);
+            }
+            for j in 0..case.spends[i].conds.len() {
+                if case.spends[i].conds[j].extra_args > 0 {
+                    let mut c = case.clone();
+                    c.spends[i].conds[j].extra_args = 0;
+                    out.push(c);
+                }
             }
             if case.spends[i].remarks > 0 {
                 let mut c = case.clone();
